@@ -126,6 +126,9 @@ const (
 
 // dialOne dials the connection once.
 func (d *Dialer) dialOne(addr string) (net.Conn, error) {
+	if verifOn && verifDial != nil {
+		return verifDial(d, addr)
+	}
 	if network := asQUIC(d.network); network != "" {
 		ctx := context.Background()
 		if d.dialTimeout > 0 {
